@@ -758,6 +758,11 @@ class Module(HasAccessibles):
             # self is a communicator supporting reconnections
             def trigger_all(trg=self.triggerPoll, polled_modules=polled_modules):
                 for m in polled_modules:
+                    if m is self:
+                        # not the communicator itself: its poll is the one making the reconnect
+                        # attempts. with a device accepting connections and closing them again,
+                        # this would make attempts as fast as possible instead of once per interval
+                        continue
                     m.pollInfo.last_main = 0
                     m.pollInfo.last_slow = 0
                 trg.set()
